@@ -153,15 +153,38 @@ uint8_t _Zeq11QStringViewS_(uint64_t na, char *a, uint64_t nb, char *b) { return
 uint8_t _Zne11QStringViewS_(uint64_t na, char *a, uint64_t nb, char *b) { return !c02_veq(na, (const uint16_t*)a, nb, (const uint16_t*)b); }
 /* QStringView::toString() (inline: QString(data(), size())) and QStringView(const QString&) (inline). The views of this code base are whole
    strings: of a model block (offset 56), of a static QStringData (QStringLiteral / operator""_s: offset 24) or of a raw UTF-16 literal (offset 0).
-   toString() of the first two gives back the SAME string data (obligation: view length == string length, left to the solver), a raw literal is
+   toString() of the first gives back the SAME block (obligation: view length == string length, left to the solver), literal data is
    copied into a block with content id. No branch goes through strlen / reference counting, and the view of a null QString keeps shared_null's
    data pointer (not nullptr: QStringView::isNull() is not used by the parsers) so that no NULL alternative enters later pointer terms. */
 void _ZNK11QStringView8toStringEv(char *ret, char *self) { uint64_t n = *(uint64_t*)self; uint16_t *p = *(uint16_t**)(self + 8);
   if (!p) { *(QAD**)ret = C02_EMPTY; return; }
-  uint64_t off = __CPROVER_POINTER_OFFSET(p);
-  if (off == QS_OFF) { ASSERT(QSBLK(p)->h.f1 == n, "C02 env: toString() of a partial view of a model block"); *(QAD**)ret = &QSBLK(p)->h; return; }
-  if (off == 24) { QAD *d = (QAD*)((char*)p - 24); ASSERT(d->f3 == 24 && d->f1 == n, "C02 env: toString() of a partial view of a static string"); *(QAD**)ret = d; return; }
   if (n == 0) { *(QAD**)ret = C02_EMPTY; return; }
-  *(QAD**)ret = c02_copy16(p, (uint32_t)n, off == 0); }
+#ifdef __CPROVER__
+  uint64_t off = __CPROVER_POINTER_OFFSET(p);
+#else
+  uint64_t off = VP_IS_QS(p) ? QS_OFF : 1;   /* native replay: block registry; literal-ness unknown */
+#endif
+  /* ALWAYS a fresh block (uniform result even when `p` is a select from a constant table of views, e.g. SASL_ERROR_CONDITIONS.at(c), for
+     which symex folds neither the offset nor the kind of the source). The copy claims a content id; that this is legitimate (source is
+     literal data, or a whole model block that has an id itself, or <= 3 units) is an obligation for the SOLVER, not a symex branch. */
+  uint8_t isblk = off == QS_OFF;
+  ASSERT(n <= 3 || off == 0 || off == 24 || (isblk && QSBLK(p)->exact && QSBLK(p)->h.f1 == n), "C02 env: toString() of a view whose content has no content id / partial view");
+  QAD *c = c02_copy16(p, (uint32_t)n, 1); struct qs *q = (struct qs*)c;
+  /* ghost fields of a block source (abstract number, base64 tag) travel with the copy */
+  q->isnum = isblk ? QSBLK(p)->isnum : 0; q->neg = isblk ? QSBLK(p)->neg : 0; q->mag = isblk ? QSBLK(p)->mag : 0; q->b64 = isblk ? QSBLK(p)->b64 : (QAD*)0;
+#ifndef __CPROVER__
+  if (!isblk) { q->exact = n <= 3; q->lit = 0; }
+#endif
+  *(QAD**)ret = c; }
 void _ZN11QStringViewC2I7QStringLb1EEERKT_(char *self, char *str) { QAD *d = *(QAD**)str; *(uint64_t*)self = (uint64_t)d->f1; *(uint16_t**)(self + 8) = qs_chars(d); }
 void _ZN11QStringViewC1I7QStringLb1EEERKT_(char *self, char *str) { QAD *d = *(QAD**)str; *(uint64_t*)self = (uint64_t)d->f1; *(uint16_t**)(self + 8) = qs_chars(d); }
+/* EVERY QString is a model block: QString(QStringDataPtr) (inline; the constructor behind QStringLiteral and operator""_s) copies the static
+   data into a block with content id (constant content: folds), QString() (inline) is the static empty block, QString::isNull() (inline) is
+   true for it. Reason: a QString selected by a switch over a symbolic enum value (conditionToString, IQ_TYPES.at(type).toString(), ...) is an
+   if-then-else over its alternatives; over model blocks of one type that is a cheap typed field read, over Qt's static QStringData objects
+   of 24 different struct types every character read becomes a byte_extract of each whole object (measured: 10 MB per SSA step). */
+void _ZN7QStringC2E14QStringDataPtr(char *self, char *ptr) { QAD *d = (QAD*)ptr; if (d->f3 == QS_OFF) { *(QAD**)self = d; return; } if (d->f1 == 0) { *(QAD**)self = C02_EMPTY; return; } *(QAD**)self = c02_copy16(qs_chars(d), d->f1, 1); }
+void _ZN7QStringC1E14QStringDataPtr(char *self, char *ptr) { _ZN7QStringC2E14QStringDataPtr(self, ptr); }
+void _ZN7QStringC2Ev(char *self) { *(QAD**)self = C02_EMPTY; }
+void _ZN7QStringC1Ev(char *self) { *(QAD**)self = C02_EMPTY; }
+uint8_t _ZNK7QString6isNullEv(char *self) { QAD *d = *(QAD**)self; return d == C02_EMPTY || d == SHARED_NULL; }
